@@ -39,10 +39,15 @@ class C06(CheckBase):
         for name, path, size in pick:
             with open(path, "rb") as f:
                 self.valid.append((name, f.read().decode("latin-1")))
-        for p in toolsim.unitary_schemas()[: (6 if tier == "quick" else 1000)]:
+        for p in toolsim.unitary_schemas():
+            import os
+            if os.path.basename(p).startswith("fail_"):
+                continue        # invalid on purpose
             with open(p, "rb") as f:
-                import os
                 self.valid.append(("u_" + os.path.splitext(os.path.basename(p))[0], f.read().decode("latin-1")))
+        import os as _os
+        with open(_os.path.join(_os.path.dirname(_os.path.dirname(_os.path.abspath(__file__))), "simlib", "data", "algo_sink.exp")) as f:
+            self.valid.append(("algo_sink", f.read()))     # hand-written: functions, procedures, rules, constants, queries, USE/REFERENCE with renames
         from simlib import kitchen
         ks = kitchen.kitchen_sink()
         self.valid.append((ks["name"], pm.emit_express(ks)))
@@ -52,7 +57,7 @@ class C06(CheckBase):
             toolsim.tool_path("san", t)
 
     def n_plans(self, tier):
-        return 700 if tier == "quick" else 20000
+        return 4000 if tier == "quick" else 60000
 
     def time_budget(self, tier):
         return 170 if tier == "quick" else 1700
@@ -65,7 +70,7 @@ class C06(CheckBase):
             name, text = self.valid[i // len(TOOLS)]
             return {"property": "C06", "tool": tool, "schema": name, "schema_text": text, "faults": [], "label": "valid", "args": []}
         tool = r.choice(TOOLS)
-        if r.random() < 0.25:
+        if r.random() < 0.3:
             name, text, label = faults.pathological_schema(r)
             fl = [] if r.random() < 0.7 else [faults.gen_express_fault(r)]
         else:
@@ -111,6 +116,11 @@ class C06(CheckBase):
             f.append("long-identifier")
         if plan["label"].startswith("long-remark") or any(x["kind"] == "stretch" and x.get("cls") in ("comment", "tail") for x in plan["faults"]):
             f.append("long-remark")
+        if plan["label"] not in ("valid", "mutant"):
+            f.append("shape:" + plan["label"].rsplit("-", 1)[0])
+        text = faults.apply_all_express(plan["schema_text"], plan["faults"])[0]
+        if open_remark_at_eof(text):
+            f.append("eof-inside-remark")
         return f
 
     def sample(self, plan, obs):
@@ -134,6 +144,39 @@ class C06(CheckBase):
     def extra_coverage(self, tier, results):
         return {"valid_schemas": [n for n, _ in self.valid], "tools": TOOLS,
                 "fault_free_sweep": {"plans": len(TOOLS) * len(self.valid), "exhaustive": True, "note": "every tool on every valid schema of this tier, no fault"}}
+
+
+def open_remark_at_eof(text):
+    """true if the bytes end inside a remark: an embedded remark (* ... that is still open, or a tail remark -- ... without its newline"""
+    depth = 0
+    i = 0
+    n = len(text)
+    while i < n - 1:
+        two = text[i:i + 2]
+        if two == "(*":
+            depth += 1
+            i += 2
+        elif two == "*)" and depth > 0:
+            depth -= 1
+            i += 2
+        elif depth == 0 and two == "--":
+            j = text.find("\n", i)
+            if j < 0:
+                return True        # the bytes end inside a tail remark
+            i = j + 1
+        elif depth == 0 and text[i] == "'":
+            j = i + 1
+            while j < n and text[j] != "\n":
+                if text[j] == "'":
+                    if j + 1 < n and text[j + 1] == "'":
+                        j += 2
+                        continue
+                    break
+                j += 1
+            i = j + 1
+        else:
+            i += 1
+    return depth > 0
 
 
 CHECK = C06()
